@@ -70,6 +70,18 @@ func vhC14(logout bool) {
 	relay := vQueryString("relay")
 	redirect := vFlag("redirect-binding")
 	endpoint := sp.IdentityProviderSSOURL
+	if vFlag("earlier-call") {
+		// the same SP built another URL before (other message, other relay state): this one stands on its own
+		doc0 := etree.NewDocument()
+		r0 := etree.NewElement("samlp:AuthnRequest")
+		r0.CreateAttr("ID", vIDString("doc0.ID"))
+		doc0.SetRoot(r0)
+		if logout {
+			sp.BuildLogoutURLRedirect(vQueryString("relay0"), doc0)
+		} else {
+			sp.BuildAuthURLRedirect(vQueryString("relay0"), doc0)
+		}
+	}
 	var out string
 	var err error
 	docBefore := vTreeSig(doc.Root())
